@@ -322,6 +322,27 @@ def _formats(ctx, rng, tmp):
             ctx.count("classic-model:" + got.split(":")[0])
             if got != want:
                 ctx.disagree("classic-format", {"format": f}, got, [a[0], str(a[1])])
+    # the template and safe-template styles against the model ZCV/Model/LogTemplate.lean (string.Template's scanner, substitute /
+    # safe_substitute on the sample record, logging.StringTemplateStyle.validate): accepted at load <-> the model accepts
+    tpl = sorted({f for st_, f in cases if st_ in ("template", "safe-template")})
+    pieces = ["$$", "$", "${", "}", "{", "_", "a", "Z", "9", "\u017f", "\u212a", "\u00e9", " ", "-", "$ x", "${}", "${ message}", "$message", "${message}",
+              "$asctime", "${asctime}", "$levelno", "${levelname}", "$nosuch", "${nosuch}", "$msg", "$args", "${threadName}", "$taskName", "$_", "$9",
+              "${9}", "$Message", "$MESSAGE", "\\n", "\\t"] + ["$" + f_ for f_ in FIELDS] + ["${%s}" % f_ for f_ in FIELDS]
+    for _ in range(4000 if ctx.thorough() else 500):
+        tpl.append("".join(rng.choice(pieces) for _ in range(rng.randint(1, 5))))
+    tpl = [f for f in dict.fromkeys(tpl) if f and f.strip() == f and "\n" not in f and not f.startswith(("<", "#", "%"))]
+    if ctx.driver_ok:
+        mans = core.driver_batch([[Atom("logtpl"), f] for f in tpl])
+        for f, a in zip(tpl, mans):
+            for k, style in enumerate(("template", "safe-template")):
+                text = "<logger>\n name zcv.c20.lt\n <logfile>\n  path STDOUT\n  style %s\n  format %s\n </logfile>\n</logger>\n" % (style, f.replace("$", "$$"))
+                r = load(text)
+                ctx.evaluations += 1
+                got = "accepted" if r[0] == "ok" else "not-accepted"
+                want = "accepted" if str(a[k]) == "t" else "not-accepted"
+                ctx.count("%s-model:%s" % (style, got if r[0] != "exc" else "raised:" + str(r[1])))
+                if got != want:
+                    ctx.disagree("template-format", {"format": f, "style": style}, [got] + [str(x) for x in r[:2]][:2], [str(x) for x in a])
     i = 0
     for style, fmt in cases:
         for arb in (False, True):
